@@ -30,3 +30,27 @@ func VerifSetDeleteParallelThreshold(n uint64) uint64 {
 	deleteRangeParallelThreshold = n
 	return old
 }
+
+var verifPanicSinkFn atomic.Pointer[func(where string, r any)]
+
+// VerifSetPanicSink installs (or, with nil, removes) a sink for panics of the store's own goroutines.
+// While a sink is installed, such a panic is handed to it instead of taking the process down, so that
+// the harness can attribute it to the scenario it is running and go on with the next one.
+func VerifSetPanicSink(f func(where string, r any)) {
+	if f == nil {
+		verifPanicSinkFn.Store(nil)
+		return
+	}
+	verifPanicSinkFn.Store(&f)
+}
+
+// verifRecover must be deferred directly. Without a sink it does nothing (the panic propagates as usual).
+func verifRecover(where string) {
+	f := verifPanicSinkFn.Load()
+	if f == nil {
+		return
+	}
+	if r := recover(); r != nil {
+		(*f)(where, r)
+	}
+}
